@@ -19,9 +19,11 @@ RULE = ('files generated from a per-format grammar (BED3/6/12, bedGraph, narrowP
         'columns, FASTQ, two-line and wrapped FASTA), 1..N records, field widths 0..W, LF/CRLF; non-trivial = at least two '
         'records and some column whose texts have unequal widths (or, for wrapped FASTA, a sequence spanning several lines)')
 EXHAUSTIVE = {'quick': False, 'thorough': False}
-TIE = ('correspondence: Model.C02.run (delimiter table, CR adjustment, digit matrix / signed ragged path, list split, SAM rest-of-line, '
-       'interior-comment deletion, INFO key lookup, genotype codes, FASTQ/FASTA line roles) evaluated in Coq on the file bytes '
-       'and compared with every parsed column')
+TIE = ('translator+correspondence: translate/gen_c02.py regenerates 30 index/offset formulas (column count, buffer size, '
+       'sentinel, field start/end, record ends before the CR adjustment, CR probe and adjustment, digit-matrix window and fill, '
+       'keep_sep, VCF position shift, SAM rest-of-line, INFO key-length arithmetic and guard) into Gen/C02.v; Bridge/C02.v proves '
+       'them equal to the named helpers of Model/C02.v (theorem C02_source_tie); and Model.C02.run is evaluated in Coq on the file '
+       'bytes and compared with every parsed column')
 ASSUMPTIONS = ['A-IO: the reader delivers the whole file (after the leading comment block) as one chunk; chunking is C01',
                'floats: the model computes the exact decimal value; observed doubles are compared within relative 2^-50 (bit-exactness is C18)',
                'vcf_header.py regular-expression parsing is not modelled: the INFO declarations (key, type, scalar/list) are case inputs',
